@@ -77,6 +77,9 @@ func body10p(s scn, m cancelMode, readTimeout time.Duration, stall bool, silentA
 		if msg := c.Prelude(prelude); msg != "" {
 			return Outcome{Key: name + "/prelude-failed", Detail: msg}
 		}
+		if s.closeErr {
+			c.C.CloseErr = errors.New("simnet: close_notify could not be written")
+		}
 		if stall {
 			c.C.StallWrites = true
 		}
@@ -316,7 +319,7 @@ func bodyHandshakeCancel(m cancelMode, helloAfter time.Duration, readTimeout tim
 
 // C10 — cancellation ends the query promptly, sends Cancel and closes the connection.
 func C10(c *vk.Ctx) {
-	c.Rule("scenarios {select, insert, streamed insert, LZ4 select, select with telemetry, insert with stalled writes, select and insert during which the server falls silent or keeps reporting progress once a second without ever ending the stream, select and insert (also with a silent server) on a client whose previous query ended with a server exception or ended well, handshake with prompt / late / no hello} x {explicit cancel() from a canceller thread placed by the scheduler at every point of every other thread, context deadline at fake 1 s and 5 s, explicit cancel of a context that also carries a 1 h deadline} x read timeout {3 s, 100 ms} x all schedules (incl. clock steps) up to the deviation bound. distinct_nontrivial = executions.")
+	c.Rule("scenarios {select, insert, streamed insert, LZ4 select, select with telemetry, insert with stalled writes, select and insert during which the server falls silent or keeps reporting progress once a second without ever ending the stream, select on a transport whose Close reports an error, select and insert (also with a silent server) on a client whose previous query ended with a server exception or ended well, handshake with prompt / late / no hello} x {explicit cancel() from a canceller thread placed by the scheduler at every point of every other thread, context deadline at fake 1 s and 5 s, explicit cancel of a context that also carries a 1 h deadline} x read timeout {3 s, 100 ms} x all schedules (incl. clock steps) up to the deviation bound. distinct_nontrivial = executions.")
 	quick := c.Quick()
 	bound := 1
 	if !quick {
@@ -372,6 +375,16 @@ func C10(c *vk.Ctx) {
 		for _, m := range []cancelMode{{"cancel", 0, 0}, {"deadline5s", 5 * time.Second, 0}, {"cancel+deadline1h", 0, time.Hour}} {
 			id := fmt.Sprintf("%s-chatty/%s", s.name, m.name)
 			jobs = append(jobs, job{id, body10s(s, m, 0, false, -3), bound, true, "C10/" + s.name + "-chatty"})
+		}
+	}
+	// a transport whose Close tears the connection down but reports an error: the cancelled
+	// client must still end up closed
+	for _, s := range scs {
+		if s.name == "select" || (s.name == "insert" && !quick) {
+			cs := withCloseErr(s)
+			for _, m := range []cancelMode{{"cancel", 0, 0}, {"deadline1s", time.Second, 0}} {
+				jobs = append(jobs, job{fmt.Sprintf("%s/%s", cs.name, m.name), body10(cs, m, 0, false), bound, true, "C10/" + cs.name})
+			}
 		}
 	}
 	jobs = append(jobs, job{"select/cancel+deadline1h/rt=0s", body10(scs[3], farModes[0], 0, false), bound, true, "C10/select"})
